@@ -1371,7 +1371,7 @@ func (h *paramHarness) doSet(inst *paramInst, user parameters.Map, line string) 
 // failClass is the coarse class of a later failure (minimisation must preserve it).
 func failClass(msg string) string {
 	switch {
-	case strings.Contains(msg, "Attempt to round floating point"):
+	case isRoundingRefusal(msg):
 		return "rounding-panic"
 	case isGiveUp(msg):
 		return "limit-unreachable"
